@@ -28,7 +28,7 @@ pub enum Gap {
     Hole(u64),
 }
 
-#[derive(Clone, Debug, PartialEq, Eq, Serialize, Deserialize, Default)]
+#[derive(Clone, Debug, PartialEq, Eq, Serialize, Deserialize)]
 pub struct Extras {
     pub rev_files: bool,
     pub unreferenced_blk: bool,
@@ -39,6 +39,19 @@ pub struct Extras {
     /// symlinks with blk-like names that no record refers to
     #[serde(default)]
     pub symlinks: bool,
+    /// which of the foreign keys are written (bit k = k-th key of the list; absent in old replay files = all)
+    #[serde(default = "all_keys")]
+    pub foreign_mask: u16,
+}
+
+fn all_keys() -> u16 {
+    u16::MAX
+}
+
+impl Default for Extras {
+    fn default() -> Extras {
+        Extras { rev_files: false, unreferenced_blk: false, blkfoo: false, dir_named_like_blk: false, foreign_keys: false, symlinks: false, foreign_mask: u16::MAX }
+    }
 }
 
 #[derive(Clone, Debug, PartialEq, Eq, Serialize, Deserialize)]
@@ -220,19 +233,34 @@ impl LayoutSpec {
             plan.extra_dirs.push(blk_name(free(8888), 5));
         }
         if self.extras.foreign_keys {
-            plan.raw_kv.push((vec![b'f', 0, 0, 0, 0], vec![1, 2, 3, 4, 5, 6]));
-            plan.raw_kv.push((vec![b'f', 1, 0, 0, 0], vec![7; 12]));
-            plan.raw_kv.push((vec![b'l'], vec![1, 0, 0, 0]));
-            plan.raw_kv.push((b"Ftxindex".to_vec(), vec![b'1']));
-            plan.raw_kv.push((vec![b'R'], vec![b'0']));
+            // the keys Bitcoin Core keeps next to the block records (file info, last file, flags, reindex marker,
+            // obfuscation key, old tx index, best block / coin entries of a shared database); any subset may be there
             let mut k = vec![0x0e, 0x00];
             k.extend_from_slice(b"obfuscate_key");
-            plan.raw_kv.push((k, vec![8, 0, 0, 0, 0, 0, 0, 0, 0]));
             let mut t = vec![b't'];
             t.extend_from_slice(&[0x42; 32]);
-            plan.raw_kv.push((t, vec![0x80, 0x00, 0x08, 0x10]));
-            plan.raw_kv.push((vec![b'B'], vec![0x11; 32]));
-            plan.raw_kv.push((vec![b'c'], vec![0x11; 8]));
+            let mut f2 = b"F".to_vec();
+            f2.push(9);
+            f2.extend_from_slice(b"prunedblockfiles".get(..9).unwrap_or(b""));
+            let all: Vec<(Vec<u8>, Vec<u8>)> = vec![
+                (vec![b'f', 0, 0, 0, 0], vec![1, 2, 3, 4, 5, 6]),
+                (vec![b'f', 1, 0, 0, 0], vec![7; 12]),
+                (vec![b'l'], vec![1, 0, 0, 0]),
+                (b"Ftxindex".to_vec(), vec![b'1']),
+                (vec![b'R'], vec![b'0']),
+                (k, vec![8, 0, 0, 0, 0, 0, 0, 0, 0]),
+                (t, vec![0x80, 0x00, 0x08, 0x10]),
+                (vec![b'B'], vec![0x11; 32]),
+                (vec![b'c'], vec![0x11; 8]),
+                (f2, vec![b'0']),
+                (vec![b'a', 0xff], vec![1]),
+                (vec![b'c', 0x00, 0x01], vec![2]),
+            ];
+            for (i, kv) in all.into_iter().enumerate() {
+                if self.extras.foreign_mask >> i & 1 == 1 {
+                    plan.raw_kv.push(kv);
+                }
+            }
         }
         plan
     }
@@ -320,8 +348,8 @@ pub fn xor_key() -> BS<Option<Vec<u8>>> {
 pub fn layout(tier: crate::gen::Tier, with_xor: bool, big_holes: bool) -> BS<LayoutSpec> {
     let nfiles = prop_oneof![3 => Just(1usize), 4 => 2usize..5, 2 => 5usize..20, 1 => 20usize..60];
     let key = if with_xor { xor_key() } else { Just(None).boxed() };
-    (nfiles, any::<u8>(), any::<u8>(), key, any::<[bool; 8]>(), 0u8..3)
-        .prop_flat_map(move |(nf, amode, omode, xor, flags, reopens)| {
+    (nfiles, any::<u8>(), any::<u8>(), key, any::<[bool; 8]>(), (0u8..3, prop_oneof![1 => Just(u16::MAX), 3 => any::<u16>()]))
+        .prop_flat_map(move |(nf, amode, omode, xor, flags, (reopens, foreign_mask))| {
             let assign: BS<Vec<u16>> = match amode % 4 {
                 0 => Just(vec![0u16]).boxed(),
                 1 => vec(any::<u16>(), 1..40).boxed(),
@@ -341,7 +369,7 @@ pub fn layout(tier: crate::gen::Tier, with_xor: bool, big_holes: bool) -> BS<Lay
                 gaps,
                 lead,
                 xor: xor.clone(),
-                extras: Extras { rev_files: flags[0], unreferenced_blk: flags[1], blkfoo: flags[2], dir_named_like_blk: flags[3], foreign_keys: flags[4], symlinks: flags[7] },
+                extras: Extras { rev_files: flags[0], unreferenced_blk: flags[1], blkfoo: flags[2], dir_named_like_blk: flags[3], foreign_keys: flags[4], symlinks: flags[7], foreign_mask },
                 ldb_small: flags[5],
                 ldb_reopens: reopens,
                 ldb_compact: flags[6],
